@@ -5,5 +5,7 @@ open CJ.Drv
 
 def main : IO Unit := runDriver fun
   | "registrar" :: args => Registrar.handle args
+  | "station" :: args => Registrar.handleStation args
+  | "uni" :: args => Registrar.handleUni args
   | "choose" :: args => Registrar.handleChoose args
   | _ => none
